@@ -117,6 +117,7 @@ IvalIdx(i) == LoIdx(i) * NB + HiIdx(i)
 OpIdx(op) == CASE op = "add" -> 0 [] op = "sub" -> 1 [] op = "mul" -> 2 [] op = "quo" -> 3
                [] op = "lsh" -> 4 [] op = "rsh" -> 5 [] op = "and" -> 6 [] op = "or" -> 7
                [] op = "unite" -> 8 [] op = "intersect" -> 9 [] op = "rshbig" -> 10
+               [] op = "andsc" -> 11 [] op = "orsc" -> 12
 RowOf(X, Y, op) == Table[ (OpIdx(op) * NB * NB * NB * NB) + (IvalIdx(X) * NB * NB) + IvalIdx(Y) + 1 ]
 
 Ans(r) == [ok |-> r[1] = 1, empty |-> r[2] = 1, lf |-> r[3] = 1, lo |-> r[4], hf |-> r[5] = 1, hi |-> r[6], alias |-> r[7] = 1,
@@ -161,13 +162,49 @@ Accept(op, X, Y, a) ==
                /\ NoAlias(a)
 
 ---------------------------------------------------------------------------
+(* Sparse scaling of and/or (ops "andsc", "orsc").  The harness calls And/Or *)
+(* on X' = [a*2^k, b*2^k] and Y' = [c*2^k, d*2^k] (ALL integers in between,  *)
+(* not only the multiples) for a large k.  Every x' is xh*2^k + xl, and      *)
+(*   X' = Box([a, b-1], k) \cup {b*2^k}   (xl arbitrary in the box, 0 at b),  *)
+(* so the exact hull is the hull of four pieces whose results are             *)
+(* rh*2^k + rl with rl either fixed to 0 or ranging over all of 0..2^k-1:     *)
+(* the expected answer is lo = L*2^k, hi = H*2^k + F*(2^k-1), with L, H, F    *)
+(* computed here from small sets.  IntervalLift!LawSparse checks this         *)
+(* decomposition against brute force for small k.                             *)
+
+BitOp(o, a, b) == IF o = "andsc" THEN BitAnd(a, b) ELSE BitOr(a, b)
+\* pieces: <<set of high parts, low part is free (1) or zero (0)>>
+SparsePieces(o, X, Y) ==
+    LET X1 == X.lo .. (X.hi - 1)   Y1 == Y.lo .. (Y.hi - 1)
+        free2 == IF o = "orsc" THEN 1 ELSE 0      \* box x point: and -> low part 0, or -> low part free
+    IN { <<{ BitOp(o, a, b) : a \in X1, b \in Y1 }, 1>>,
+         <<{ BitOp(o, a, Y.hi) : a \in X1 }, free2>>,
+         <<{ BitOp(o, X.hi, b) : b \in Y1 }, free2>>,
+         <<{ BitOp(o, X.hi, Y.hi) }, 0>> }
+SparseExpected(o, X, Y) ==
+    LET ps == { p \in SparsePieces(o, X, Y) : p[1] # {} }
+        highs == UNION { p[1] : p \in ps }
+        H == SetMax(highs)
+        F == IF \E p \in ps : p[2] = 1 /\ H \in p[1] THEN 1 ELSE 0
+    IN [L |-> SetMin(highs), H |-> H, F |-> F]
+SparseApplies(X, Y) == AllFinite(X) /\ AllFinite(Y) /\ ~IsEmpty(X) /\ ~IsEmpty(Y)
+
+\* row layout for these ops: [ok (2 = not applicable), empty, lf, L, hf, H, alias, fits, F]
+AcceptSparse(o, X, Y, r) ==
+    IF ~SparseApplies(X, Y) THEN r[1] = 2
+    ELSE LET e == SparseExpected(o, X, Y) IN
+         /\ r[1] = 1 /\ r[2] = 0 /\ r[3] = 1 /\ r[5] = 1 /\ r[7] = 0 /\ r[8] = 1
+         /\ r[4] = e.L /\ r[6] = e.H /\ r[9] = e.F
+
+---------------------------------------------------------------------------
 VARIABLES x, y, op
 
 Init == x \in Universe /\ y \in Universe /\ op \in Ops
 Next == UNCHANGED <<x, y, op>>
 Spec == Init /\ [][Next]_<<x, y, op>>
 
-RowOK == Accept(op, x, y, Ans(RowOf(x, y, op)))
+RowOK == IF op \in {"andsc", "orsc"} THEN AcceptSparse(op, x, y, RowOf(x, y, op))
+         ELSE Accept(op, x, y, Ans(RowOf(x, y, op)))
 
 \* Vacuity guards, checked once (ASSUME): the universe contains every class
 \* the property names, and the windows are wide enough for `ok` to be exact.
